@@ -194,8 +194,10 @@ Qed.
 Lemma pool_send_shut : forall s c m s' r, s_shut s = true -> pool_send s c m = (s', r) ->
   s_thr s' = s_thr s /\ s_sd s' = s_sd s /\ s_avail s' = s_avail s /\ s_active s' = s_active s.
 Proof.
-  intros s c m s' r Hsh H. unfold pool_send in H. destruct (tget c (s_reg s)) as [[|]|]; try (injection H as <- <-; repeat split).
-  unfold dispatch in H. sst. rewrite Hsh in H. destruct (_ =? 1); injection H as <- <-; repeat split.
+  intros s c m s' r Hsh H. unfold pool_send in H. destruct (tget c (s_reg s)) as [[|]|].
+  - injection H as <- <-; repeat split.
+  - unfold dispatch in H. sst. rewrite Hsh in H. destruct (_ =? 1); injection H as <- <-; repeat split.
+  - injection H as <- <-; repeat split.
 Qed.
 
 (* every transition taken while Shutdown() is in progress leaves the measure alone or lowers it *)
@@ -211,17 +213,17 @@ Proof.
     destruct (th_client h) as [c|] eqn:Hc; [|discriminate]. destruct (th_queue h) as [|m q] eqn:Hq; [discriminate|].
     destruct (th_running h) eqn:Hr; [discriminate|]. injection Hst as <- <-. sst.
     pose proof (work_tset_some t h (mkThr (Some c) (m :: q) true (th_exited h)) _ Ht) as Hw.
-    unfold thr_work in Hw at 1 3. rewrite Hc, Hq, Hr in Hw. cbn in Hw. lia.
+    unfold thr_work in Hw. rewrite Hc, Hq, Hr in Hw. cbn [th_client th_queue th_running length] in Hw. lia.
   - destruct (tget t (s_thr s)) as [h|] eqn:Ht; [|discriminate].
     destruct (th_client h) as [c|] eqn:Hc; [|discriminate]. destruct (th_queue h) as [|m q] eqn:Hq; [discriminate|].
     destruct (th_running h) eqn:Hr; [|discriminate]. injection Hst as <- <-. sst.
     pose proof (work_tset_some t h (mkThr (Some c) q false (th_exited h)) _ Ht) as Hw.
-    unfold thr_work in Hw at 1 3. rewrite Hc, Hq, Hr in Hw. cbn in Hw. lia.
+    unfold thr_work in Hw. rewrite Hc, Hq, Hr in Hw. cbn [th_client th_queue th_running length] in Hw. lia.
   - destruct (tget t (s_thr s)) as [h|] eqn:Ht; [|discriminate].
     destruct (th_client h) as [c|] eqn:Hc; [|discriminate]. destruct (th_queue h) as [|m q] eqn:Hq; [|discriminate].
     destruct (th_running h) eqn:Hr; [discriminate|]. unfold finished in Hst. sst. rewrite Hsh in Hst. injection Hst as <- <-. sst.
     pose proof (work_tset_some t h (mkThr None [] false (th_exited h)) _ Ht) as Hw.
-    unfold thr_work in Hw at 1 3. rewrite Hc, Hq, Hr in Hw. cbn in Hw. lia.
+    unfold thr_work in Hw. rewrite Hc, Hq, Hr in Hw. cbn [th_client th_queue th_running length] in Hw. lia.
   - destruct (in_unreg s c); [discriminate|]. destruct (lmem c (s_cl s)); [|discriminate].
     unfold unreg_begin in Hst. destruct (outstanding s c); injection Hst as <- <-; sst; lia.
   - destruct (tget c (s_unreg s)) as [[[|]|]|]; try discriminate. injection Hst as <- <-. sst. lia.
@@ -261,13 +263,13 @@ Proof.
     - exists (LFinish t). cbn [step]. rewrite Ht, Hc, Hq, Hr. unfold finished. sst. rewrite Hsh.
       do 2 eexists. split; [reflexivity|]. sst.
       pose proof (work_tset_some t h (mkThr None [] false (th_exited h)) _ Ht) as Hw.
-      unfold thr_work in Hw at 1 3. rewrite Hc, Hq, Hr in Hw. cbn in Hw. repeat split; auto. lia.
+      unfold thr_work in Hw. rewrite Hc, Hq, Hr in Hw. cbn [th_client th_queue th_running length] in Hw. repeat split; auto. lia.
     - exists (LExit t). cbn [step]. rewrite Ht, Hc, Hq, Hr. do 2 eexists. split; [reflexivity|]. sst.
       pose proof (work_tset_some t h (mkThr (Some c) q false (th_exited h)) _ Ht) as Hw.
-      unfold thr_work in Hw at 1 3. rewrite Hc, Hq, Hr in Hw. cbn in Hw. repeat split; auto. lia.
+      unfold thr_work in Hw. rewrite Hc, Hq, Hr in Hw. cbn [th_client th_queue th_running length] in Hw. repeat split; auto. lia.
     - exists (LEnter t). cbn [step]. rewrite Ht, Hc, Hq, Hr. do 2 eexists. split; [reflexivity|]. sst.
       pose proof (work_tset_some t h (mkThr (Some c) (m :: q) true (th_exited h)) _ Ht) as Hw.
-      unfold thr_work in Hw at 1 3. rewrite Hc, Hq, Hr in Hw. cbn in Hw. repeat split; auto. lia. }
+      unfold thr_work in Hw. rewrite Hc, Hq, Hr in Hw. cbn [th_client th_queue th_running length] in Hw. repeat split; auto. lia. }
   unfold sd_measure, sd_weight.
   destruct (s_sd s) as [| |[|t r] nz|[|t r] [|]|] eqn:Hsd; try congruence.
   - exists LShutSwap. cbn [step]. rewrite Hsd. do 2 eexists. split; [reflexivity|]. sst.
